@@ -37,7 +37,7 @@ def mc_module(emit):
         "ASSUME JsonSerialize(IOEnv.OUT, [R |-> R, D |-> MaxDepth, K |-> K, defs |-> DefTable, anchors |-> AnchorTable, tiles |-> TileTable,"
         " sub |-> SubTable, adm |-> %s, fold |-> FoldTable])" % ("AdmTable" if emit.get("adm") else "<<>>"),
     ]
-    return tla.module("MCToast", ["ToastLattice", "Json", "IOUtils", "SequencesExt"], defs)
+    return tla.module("MCToast", ["ToastLookup", "Json", "IOUtils", "SequencesExt"], defs)
 
 
 class Tables(object):
